@@ -67,8 +67,6 @@ func init() {
 			Vars: map[string]string{"d.callback.OngoingSessionPeer()": "sessionPeer", "peer": "peer"}, Params: []string{"sessionPeer", "peer"}, Result: "Bool",
 			Doc: "peers are numbered; 0 = the empty string (no session)"},
 		// ---- itemsfetcher (C16) ---------------------------------------------------------------
-		{Module: "Fetcher", Name: "isFirst", File: gFetcher, Func: "Fetcher.processNotification", Sel: "assign:first", Mode: "nat",
-			Vars: map[string]string{"len(f.fetching)": "nFetching"}, Params: []string{"nFetching"}, Result: "Bool"},
 		{Module: "Fetcher", Name: "noAnnounces", File: gFetcher, Func: "Fetcher.processNotification", Sel: "assign:noAnnounces", Mode: "nat",
 			Vars: map[string]string{"f.announces.Len()": "nAnnounces"}, Params: []string{"nAnnounces"}, Result: "Bool"},
 		{Module: "Fetcher", Name: "nothingInteresting", File: gFetcher, Func: "Fetcher.processNotification", Sel: "if:0", Mode: "nat",
@@ -80,9 +78,9 @@ func init() {
 		{Module: "Fetcher", Name: "sendRequest", File: gFetcher, Func: "Fetcher.processNotification", Sel: "if:3", Mode: "nat",
 			Vars: map[string]string{"len(toFetch)": "nToFetch"}, Params: []string{"nToFetch"}, Result: "Bool"},
 		{Module: "Fetcher", Name: "armTimer", File: gFetcher, Func: "Fetcher.processNotification", Sel: "if:4", Mode: "nat",
-			Vars:   map[string]string{"first": "first", "noAnnounces": "noAnnounces", "len(f.fetching)": "nFetching", "f.announces.Len()": "nAnnounces"},
-			Params: []string{"nFetching", "nAnnounces"}, BParams: []string{"first", "noAnnounces"}, Result: "Bool",
-			Doc: "the timer is (re)armed after a notification when this holds (repaired rule, DESIGN 7-D3)"},
+			Vars:   map[string]string{"noAnnounces": "noAnnounces", "f.announces.Len()": "nAnnounces"},
+			Params: []string{"nAnnounces"}, BParams: []string{"noAnnounces"}, Result: "Bool",
+			Doc: "the timer is armed after a notification when this holds (DESIGN 7-D3 and the re-arm repair: an armed timer is never moved)"},
 		{Module: "Fetcher", Name: "tooOld", File: gFetcher, Func: "Fetcher.loop", Sel: "if:1", Mode: "nat",
 			Vars: map[string]string{"time.Since(oldest.time)": "age", "f.cfg.ForgetTimeout": "forget"}, Params: []string{"age", "forget"}, Result: "Bool"},
 		{Module: "Fetcher", Name: "refetch", File: gFetcher, Func: "Fetcher.loop", Sel: "if:2", Mode: "nat",
